@@ -512,3 +512,236 @@ def rule_stages_per_call(cm, em, rep, rid):
                               'counters can serve several compilations, so what is written for a source depends on the sources before it' % (
                                   r[1].name, f.name, ', '.join(outside[:3]) or 'module level / entry point'), f.loc(x))
     rep.minimum('constructions of stateful compiler stages', n, 3)
+
+
+# ---------------------------------------------------------------------------------------------
+# fields that shadow the fact store
+
+
+def rule_store_shadows_follow(em, rep, rid):
+    from .rules_db import StoreModel
+    rep.rule(rid, 'a field of the engine into which fact objects are put or from which they are taken next to a change of the fact '
+                  'store (a set of live facts, an index, a counter per predicate) is updated by every function that changes the '
+                  'store - sibling agreement of assert, retract, retractall (and clear resets it): otherwise the shadow and the '
+                  'store disagree after some history')
+    sm = StoreModel(em)
+    pubs = [f for f, _ in sm.publishers]
+    fact = em.repo.cls('engine', 'Answer')
+
+    def callees_in_class(f):
+        return [c for n, cs in em.cg.calls.get(f, ()) for c in cs if c.cls is em.YP and is_self_attr(n.func)]
+
+    def fact_locals(g, extra=()):
+        names = set(extra)
+        for s in own_nodes(g.node):
+            if isinstance(s, ast.Assign) and isinstance(s.value, ast.Call) and is_name(s.value.func, fact.name):
+                names |= {t.id for t in s.targets if isinstance(t, ast.Name)}
+            if isinstance(s, (ast.For, ast.comprehension)) and isinstance(s.target, ast.Name) and \
+                    (sm.is_reader_call(g, s.iter) or (isinstance(s.iter, ast.Name) and s.iter.id in sm.alias_locals(g, {}))):
+                names.add(s.target.id)
+        return names
+
+    def shadows_touched(g, extra=(), depth=2, seen=None):
+        """{field: node} - fields other than the store that g (or a helper it calls with a fact) mutates with a fact object"""
+        seen = seen if seen is not None else set()
+        if g in seen or depth < 0:
+            return {}
+        seen.add(g)
+        fl = fact_locals(g, extra)
+        out = {}
+        for x in own_nodes_ordered(g.node):
+            if isinstance(x, ast.Call) and isinstance(x.func, ast.Attribute) and is_self_attr(x.func.value) and x.func.value.attr != sm.field and \
+                    x.func.attr in MUTATORS and any(is_name(y) and y.id in fl for a in x.args for y in ast.walk(a)):
+                out.setdefault(x.func.value.attr, x)
+            if isinstance(x, ast.Subscript) and isinstance(x.ctx, (ast.Store, ast.Del)) and is_self_attr(x.value) and x.value.attr != sm.field:
+                par = getattr(x, '_parent', None)
+                val = par.value if isinstance(par, ast.Assign) else None
+                if any(is_name(y) and y.id in fl for e in [x.slice, val] if e is not None for y in ast.walk(e)):
+                    out.setdefault(x.value.attr, x)
+        for n, cs in em.cg.calls.get(g, ()):
+            for c in cs:
+                if c.cls is em.YP and is_self_attr(n.func) and c not in pubs:
+                    passed = [p for p, a in zip(c.params[1:], n.args) if any(is_name(y) and y.id in fl for y in ast.walk(a))]
+                    for k, v in shadows_touched(c, passed, depth - 1, seen).items():
+                        out.setdefault(k, n)
+        return out
+
+    def writes_store(g, depth=2, seen=None):
+        seen = seen if seen is not None else set()
+        if g in seen or depth < 0:
+            return False
+        seen.add(g)
+        if g in pubs or any(c in pubs for c in callees_in_class(g)):
+            return True
+        return any(writes_store(c, depth - 1, seen) for c in callees_in_class(g) if c not in pubs)
+    writers = [g for g in em.YP.methods.values() if g not in pubs and g.name not in ('__init__', 'clear') and writes_store(g, 0)]
+    # helpers that publish on behalf of their callers count for the caller
+    entry_writers = [g for g in em.YP.methods.values() if g not in pubs and g.name not in ('__init__', 'clear') and writes_store(g)]
+    top = [g for g in entry_writers if not any(g in callees_in_class(h) for h in entry_writers if h is not g)]
+    touched = {g: shadows_touched(g) for g in top}
+    in_publisher = set()
+    for p in pubs:
+        in_publisher |= set(shadows_touched(p, extra=p.params[1:]))
+    shadows = {}
+    for g, t in touched.items():
+        for k, node in t.items():
+            if k not in in_publisher:
+                shadows.setdefault(k, (g, node))
+    rep.analysed_add('store writers', sorted(g.qname for g in top))
+    if not shadows:
+        rep.ok(rid, 'fact store', 'no field shadows the fact store (%d functions change the store)' % len(top), None, nontrivial=False)
+        return
+    for k, (g0, node0) in sorted(shadows.items()):
+        for g in top:
+            key = '%s / %s' % (g.qname, k)
+            if k in touched[g]:
+                rep.ok(rid, key, 'keeps self.%s in step with the store' % k, g.loc(touched[g][k]))
+            else:
+                rep.violation(rid, key, '%s changes the facts of the store without updating self.%s, which %s keeps in step with the store '
+                              '(%s): after %s the two disagree about which facts exist' % (g.name, k, g0.name, norm(node0)[:50], g.name), g.loc())
+        clear = em.YP.methods.get('clear')
+        if clear is not None:
+            resets = any(isinstance(x, ast.Assign) and any(is_self_attr(t, k) for t in x.targets) for x in own_nodes(clear.node)) or \
+                any(isinstance(x, ast.Call) and isinstance(x.func, ast.Attribute) and is_self_attr(x.func.value, k) and x.func.attr == 'clear'
+                    for x in own_nodes(clear.node))
+            if not resets:
+                rep.violation(rid, 'engine.YP.clear / %s' % k, 'clear() empties the store but not self.%s' % k, clear.loc())
+
+
+# ---------------------------------------------------------------------------------------------
+# a load takes over every definition of the script
+
+
+def rule_load_takes_all(em, rep, rid):
+    import re as _re
+    from . import lexclass as lx
+    rep.rule(rid, 'on the way from exec() to eval_context, a name defined by the loaded script is skipped only because its value is '
+                  'what the engine already has: no test on the spelling of the name (startswith/endswith/regex/membership in a '
+                  'list of names) can leave out a name of the form <identifier>_<arity> - every clause head the compiler '
+                  'accepts becomes callable')
+    load = em.repo.lookup_method(em.YP, 'load_script_from_string')
+    if load is None:
+        raise AnalysisError('anchor vanished: YP.load_script_from_string')
+    funcs = [g for g in em.cg.reachable([load], with_refs=False, include_nested=True) if g.module.name == 'engine' and
+             (g is load or g.cls is None or g.cls is em.YP)]
+    keyfmt = lx.dfa(r'[A-Za-z_][A-Za-z0-9_]*_[0-9]+')
+    n = 0
+    for g in funcs:
+        # loop variables that range over the names of a mapping: for k, v in X.items() / for k in X
+        for loop in [s for s in own_nodes_ordered(g.node) if isinstance(s, (ast.For, ast.comprehension))]:
+            it = loop.iter
+            names = set()
+            if isinstance(it, ast.Call) and isinstance(it.func, ast.Attribute) and it.func.attr == 'items' and isinstance(loop.target, ast.Tuple) and \
+                    loop.target.elts and isinstance(loop.target.elts[0], ast.Name):
+                names.add(loop.target.elts[0].id)
+            elif isinstance(it, ast.Call) and isinstance(it.func, ast.Attribute) and it.func.attr == 'keys' and isinstance(loop.target, ast.Name):
+                names.add(loop.target.id)
+            if not names:
+                continue
+            n += 1
+            body = loop.body if isinstance(loop, ast.For) else list(getattr(loop, 'ifs', []))
+            for x in [y for b in body for y in ast.walk(b)]:
+                rx = None
+                if isinstance(x, ast.Call) and isinstance(x.func, ast.Attribute) and isinstance(x.func.value, ast.Name) and x.func.value.id in names and \
+                        x.args and isinstance(x.args[0], ast.Constant) and isinstance(x.args[0].value, str):
+                    lit = _re.escape(x.args[0].value)
+                    if x.func.attr == 'startswith':
+                        rx = lit + r'[\s\S]*'
+                    elif x.func.attr == 'endswith':
+                        rx = r'[\s\S]*' + lit
+                if isinstance(x, ast.Compare) and len(x.ops) == 1 and isinstance(x.ops[0], (ast.In, ast.NotIn)) and is_name(x.left) and \
+                        x.left.id in names and isinstance(x.comparators[0], (ast.Tuple, ast.List, ast.Set)) and \
+                        all(isinstance(e_, ast.Constant) and isinstance(e_.value, str) for e_ in x.comparators[0].elts):
+                    rx = lx.words([e_.value for e_ in x.comparators[0].elts])
+                if isinstance(x, ast.Call) and norm(x.func) in ('re.match', 're.fullmatch', 're.search') and len(x.args) == 2 and \
+                        isinstance(x.args[0], ast.Constant) and is_name(x.args[1]) and x.args[1].id in names:
+                    p_ = x.args[0].value
+                    rx = p_ if norm(x.func) == 're.fullmatch' else (p_ + r'[\s\S]*' if norm(x.func) == 're.match' else r'[\s\S]*' + p_ + r'[\s\S]*')
+                if rx is None:
+                    continue
+                try:
+                    hit = lx.dfa(rx).intersect(keyfmt).witness()
+                    miss = lx.dfa(rx).complement().intersect(keyfmt).witness()
+                except (ValueError, KeyError, RecursionError):
+                    continue
+                key = '%s:%s' % (g.qname, norm(x)[:50])
+                if hit is not None and miss is not None:
+                    rep.violation(rid, key, 'names of loaded definitions are told apart by their spelling here (%s): e.g. %r and %r are both names the '
+                                  'compiler can emit, and they are treated differently - a predicate of the program may not become callable' % (
+                                      norm(x)[:40], hit, miss), g.loc(x))
+                else:
+                    rep.ok(rid, key, 'the test does not separate names of the form name_<arity>', g.loc(x))
+    rep.ok(rid, load.qname, '%d loop(s) over the names of a context examined in %d function(s)' % (n, len(funcs)), load.loc(), nontrivial=bool(n))
+    rep.minimum('loops over the loaded names', n, 1)
+
+
+# ---------------------------------------------------------------------------------------------
+# the text the lexer sees is the text the caller gave
+
+
+def rule_source_reaches_lexer_unchanged(em, rep, rid):
+    from .rules_front import pipeline_function
+    rep.rule(rid, 'compile_prolog_from_string hands its source argument to the character stream of the lexer as it is (directly or '
+                  'through plain local copies / helper parameters): no replace/splitlines/join/strip/encode on the way, which would '
+                  'also rewrite the characters inside quoted atoms')
+    comp = em.repo.module('compiler')
+    api = comp.functions.get('compile_prolog_from_string')
+    if api is None:
+        raise AnalysisError('anchor vanished: compiler.compile_prolog_from_string')
+    pipe = pipeline_function(em)[0].origin
+    v = em.view(api, keep=(pipe,))
+    src = api.params[0]
+    streams = [x for x in own_nodes_ordered(v.node) if isinstance(x, ast.Call) and norm(x.func).split('.')[-1] == 'InputStream' and x.args]
+    if not streams:
+        # the stream may be built inside the pipeline function from a parameter
+        pv = em.view(pipe)
+        streams2 = [x for x in own_nodes_ordered(pv.node) if isinstance(x, ast.Call) and norm(x.func).split('.')[-1] == 'InputStream' and x.args]
+        if not streams2:
+            raise AnalysisError('no InputStream(...) found between compile_prolog_from_string and the lexer')
+        rep.note(rid, 'the character stream is built inside %s; the path of the source text into it is not followed' % pipe.name, pipe.loc())
+        return
+    for x in streams:
+        e = x.args[0]
+        hops = 0
+        chain = [norm(e)]
+        while isinstance(e, ast.Name) and e.id != src and hops < 6:
+            defs = [s for s in own_nodes(v.node) if isinstance(s, ast.Assign) and any(is_name(t, e.id) for t in s.targets)]
+            if len(defs) != 1:
+                break
+            e = defs[0].value
+            chain.append(norm(e))
+            hops += 1
+        key = '%s:%s' % (api.qname, norm(x)[:50])
+        if isinstance(e, ast.Name) and e.id == src:
+            rep.ok(rid, key, 'the lexer reads the caller\'s text (%s)' % ' <- '.join(chain), api.loc(x))
+        elif isinstance(e, ast.Call) and is_name(e.func, 'str') and len(e.args) == 1 and is_name(e.args[0], src):
+            rep.ok(rid, key, 'the lexer reads str(source)', api.loc(x))
+        else:
+            rep.violation(rid, key, 'the text given to the lexer is %s, not the source argument itself: whatever that rewrites is also rewritten '
+                          'inside quoted atoms, so a literal no longer denotes the atom that was written' % chain[-1][:70], api.loc(x))
+    rep.minimum('character streams built from the source argument', len(streams), 1)
+
+
+# ---------------------------------------------------------------------------------------------
+# containers that exist once per process
+
+
+def rule_no_import_time_container_mutated(cm, rep, rid):
+    rep.rule(rid, 'value flow: no list, set or dictionary that is created when a module of the compiler is imported (a module-level '
+                  'constant, a default argument) is changed in place by code that runs during a compilation - through whatever '
+                  'alias it reaches that code; it would carry what one compilation did into the next')
+    fl = cm.flow
+    n = 0
+    for site, (f, call) in sorted(fl.mutated.items(), key=lambda kv: str(kv[0])):
+        if site not in fl.module_sites:
+            continue
+        if not isinstance(f, type(None)) and not hasattr(f, 'qname'):
+            continue            # changed while the module itself is being imported: part of building the constant
+        n += 1
+        alloc = fl.module_sites[site]
+        rep.violation(rid, '%s:%s' % (f.qname, norm(call)[:50]), 'the %s created at %s line %d when the module is imported (%s) can be the object that '
+                      '%s changes in place here: it exists once per process, so the next compilation starts from what this one left in it' % (
+                          site[0], site[1], site[2], norm(alloc)[:30], norm(call)[:40]), f.loc(call))
+    if not n:
+        rep.ok(rid, 'import-time containers', '%d container(s) created at import time, none of them reaches an in-place change (%d change sites followed)' % (
+            len(fl.module_sites), len(fl.mutated)), None)
